@@ -331,6 +331,7 @@ class BatchEval(Evaluator):
         self.sinks: List[Tuple[str, str, Tuple[str, ...], Dict[str, Any]]] = []   # (coordinate system, call name, operand labels, params)
         self.vmap_depth = 0
         self.acted: set = set()
+        self.owners: set = set()     # plugin classes whose primitive this rule is registered for
         self.consts = {"batching.not_mapped": None, "not_mapped": None}
         self.call_hook = self._hook
 
@@ -361,6 +362,8 @@ class BatchEval(Evaluator):
 
     # ------------------------------------------------------------------------------------------------ sinks
     def _sink(self, cn: str, args: Sequence[Any], kwargs: Dict[str, Any], names: Dict[str, str]) -> Any:
+        if self.vmap_depth and cn.endswith("._PRIM.bind") and cn[: -len("._PRIM.bind")] in self.owners:
+            raise AxisViolation(f"`{cn}(…)` is called under jax.vmap inside the batching rule of that very primitive: the inner vmap invokes this rule again, which calls jax.vmap again (RecursionError at export)")
         arrays, rest = _flatten_arrays(args)
         if not arrays:
             raise Unsupported(f"sink {cn} without array operands")
@@ -529,7 +532,8 @@ def expected(spec: Spec, example_arrays: List[Any], params: Dict[str, Any]) -> T
     return spec.apply(example_arrays, params, spec.prim)
 
 
-def run_rule(idx: Index, fi: FuncInfo, spec: Spec, example_labels: List[Optional[Tuple[str, ...]]], bdims: List[Optional[int]], params: Dict[str, Any], free_env: Optional[Dict[str, Any]] = None) -> Tuple[str, str]:
+def run_rule(idx: Index, fi: FuncInfo, spec: Spec, example_labels: List[Optional[Tuple[str, ...]]], bdims: List[Optional[int]], params: Dict[str, Any], free_env: Optional[Dict[str, Any]] = None,
+             owners: Optional[set] = None) -> Tuple[str, str]:
     """Evaluate one batching rule on one case.  Returns (status, detail) with status in OK / VIOLATION / UNRESOLVED / SKIP
     (SKIP: the per-example call itself is invalid for these parameters, e.g. an axis out of range)."""
     ex_arrays = [arr(L) for L in example_labels if L is not None]
@@ -546,6 +550,7 @@ def run_rule(idx: Index, fi: FuncInfo, spec: Spec, example_labels: List[Optional
         else:
             batched.append(arr(L[:bd] + ("B",) + L[bd:]))
     ev = BatchEval(idx, spec)
+    ev.owners = set(owners or ())
     clo = Closure(ev, fi.node, dict(free_env or {}), fi, 0)
     lead = (Opaque("self"),) if fi.cls is not None and fi.node.args.args and fi.node.args.args[0].arg in ("self", "cls") else ()  # type: ignore[attr-defined]
     try:
@@ -558,6 +563,8 @@ def run_rule(idx: Index, fi: FuncInfo, spec: Spec, example_labels: List[Optional
         return "UNRESOLVED", f"not evaluable: {u}"
     except RecursionError:
         return "UNRESOLVED", "recursion limit"
+    except (TypeError, ValueError, KeyError, IndexError, AttributeError) as x:
+        return "UNRESOLVED", f"not evaluable: {type(x).__name__}: {x}"
     if not isinstance(res, (tuple, list)) or len(res) != 2:
         return "UNRESOLVED", f"the rule returned {type(res).__name__}, not (outputs, batch dims)"
     outs, obd = res
